@@ -215,6 +215,10 @@ def check_c_bound(acc, rng, flavor):
                 ths.append(en.periodic_coulomb_uphill(q, s, d, L, xx)[0])
         ths = [t for t in ths if 0 < t < INF]
         budget, bstyle = gen_budget(rng, ths)
+        if 0 < per_lap < INF and rng.random() < 0.12:
+            # budgets worth 10^6 .. 10^13 box traversals (tiny charge products or huge budgets): the lap count leaves the
+            # range of 32-bit integers, the distance stays an ordinary double
+            budget, bstyle = per_lap * 10.0 ** rng.uniform(6.0, 13.0), "many_laps"
         vel = [0.0, 0.0, 0.0]
         vel[d] = speed
         wit = {"kind": "c_bound", "prefactor": k, "L": L, "d": d, "speed": speed, "s": [x.hex() for x in s],
@@ -243,6 +247,17 @@ def check_c_bound(acc, rng, flavor):
             acc.count("ill_conditioned_totality_only")
             if x == INF and per_lap > 0:
                 acc.violation("C02:infinite-although-path-accumulates-budget", f"periodic 1/r never returns inf: s={s}", wit)
+            elif 0 < per_lap < INF and budget / per_lap > 1e6 and x < INF and not (rho2 == 0.0 and q < 0):
+                # coarse inversion identity for many laps: every full traversal costs exactly per_lap, so the distance lies
+                # between (laps - 2) and (laps + 2) box lengths
+                laps = budget / per_lap
+                acc.count("many_lap_bounds_checked")
+                if laps >= 2.0 ** 31:
+                    acc.count("many_lap_bounds_checked_beyond_2^31_laps")
+                if not ((laps - 2.0) * L * (1 - 1e-9) <= x <= (laps + 2.0) * L * (1 + 1e-9)):
+                    acc.violation("C02:inversion-identity",
+                                  f"C bound (L={L}, q={q!r}): s={s}, budget={budget!r} pays for {laps!r} box traversals (per lap "
+                                  f"{per_lap!r}) but the returned distance is {x!r}", wit)
             continue
         e_d, sc = en.periodic_coulomb_uphill(q, s, d, L, max(x, 0.0))
         if not (e_d < INF and sc < INF):
